@@ -836,6 +836,10 @@ def gen_column(rng, stats):
     else:
         s = pd.Series([rng.random() < 0.5 for _ in range(n)], dtype=bool)
     stats.hit('converter.kind.' + kind)
+    # arbitrary (non-default, unordered) row labels: the conversion must not depend on them nor change them
+    if len(s) and rng.random() < 0.6:
+        s.index = rng.sample(range(-5, 5 * len(s) + 5), len(s))
+        stats.hit('converter.index.custom')
     return s, kind
 
 
@@ -862,16 +866,23 @@ def suite_converter(rng, n, stats):
                 df = pd.DataFrame({'k': range(len(s)), 'c': s})
                 res = dataframe_column_to_str(df, 'c', inplace, return_col)
                 holder = df['c']
+            labels = list(s.index)
             if res is True:
                 exp = {'ok': {'ret': 'True', 'after': col_json(holder)}}
+                if list(holder.index) != labels:
+                    exp['labels_changed'] = True
             elif isinstance(res, pd.Series):
                 exp = {'ok': {'ret': 'col', 'col': col_json(res)}}
-                if col_json(holder) != before:
+                if col_json(holder) != before or list(holder.index) != labels:
                     exp['input_mutated'] = True
+                if list(res.index) != labels:
+                    exp['labels_changed'] = True
             elif isinstance(res, pd.DataFrame):
                 exp = {'ok': {'ret': 'frame', 'col': col_json(res['c'])}}
                 if col_json(holder) != before or list(res.columns) != ['k', 'c'] or list(res['k']) != list(range(len(s))):
                     exp['input_mutated'] = True
+                if list(res.index) != labels or list(holder.index) != labels:
+                    exp['labels_changed'] = True
             else:
                 exp = {'ok': {'ret': repr(res)}}
         except Exception as e:   # noqa: BLE001
